@@ -113,6 +113,7 @@ class C12(Prop):
     def configure(self, rng, tier):
         cfg = hier_config(rng)
         cfg["steps"] = 10 ** 6
+        cfg["rewrap"] = rng.choice([False, False, True])
         cfg["n_traces"] = rng.choice([6, 12, 24])
         cfg["connect_rate"] = rng.choice([0.6, 0.9, 0.9])
         cfg["passthrough"] = rng.random() < 0.7
